@@ -140,17 +140,29 @@ def run_entry(case, serial=False):
             Chef("src", recipe="SDi", species=["H2", "O2"], mech=c11.MECH, pressure=pres, outfile="out", serial=serial,
                  kept_fields="density").cook()
             hashes.append(tree_hash("out"))
+            if pres == 1.0 and os.path.isdir("src_cut"):
+                # a cook at yet another pressure that cannot succeed (truncated input), between the two good ones
+                try:
+                    Chef("src_cut", recipe="SDi", species=["H2", "O2"], mech=c11.MECH, pressure=9.0, outfile="out_cut", serial=serial,
+                         kept_fields="density").cook()
+                    hashes.append("the cook of the truncated copy returned normally")
+                except Exception as ex:
+                    hashes.append("refused")
+                shutil.rmtree("out_cut", ignore_errors=True)
         return digest(hashes)
     elif e == "mand2d":
         from amr_kitchen.mandoline import Mandoline
-        return digest(Mandoline("src", fields=["temp", "grid_level", "density"], serial=serial, verbose=0).slice(fformat="return"))
+        m = Mandoline("src", fields=["temp", "grid_level", "density"], serial=serial, verbose=0)
+        return digest([m.slice(fformat="return"), m.slice(fformat="return")])      # one object, two calls (history)
     elif e in ("mand3d", "mand3d_plt"):
         from amr_kitchen.mandoline import Mandoline
         m = Mandoline("src", fields=["temp", "density"] + (["grid_level"] if e == "mand3d" else []), serial=serial, verbose=0)
         pos = case["_pos"]
         if e == "mand3d":
-            return digest(m.slice(normal=case["normal"], pos=pos, fformat="return"))
-        m.slice(normal=case["normal"], pos=pos, fformat="plotfile", outfile="out")
+            return digest([m.slice(normal=case["normal"], pos=pos, fformat="return"), m.slice(normal=case["normal"], pos=pos, fformat="return")])
+        m.slice(normal=case["normal"], pos=pos, fformat="plotfile", outfile="out_first")
+        shutil.rmtree("out_first")
+        m.slice(normal=case["normal"], pos=pos, fformat="plotfile", outfile="out")      # the second slice of one object
     elif e == "pestle":
         from amr_kitchen.pestle import volume_integral
         pck = PlotfileCooker("src", ghost=True)
@@ -294,6 +306,13 @@ def prepare(case, variant):
     if e == "chef":
         with open("recipe_c12.py", "w") as f:
             f.write(RECIPE)
+    if e == "chef_ct":
+        # a damaged copy whose cook is refused between the two good cooks (history: a failed run must not leave
+        # worker state behind): first level-0 binary cut at the start of its last box, or inside that box's data
+        shutil.copytree("src", "src_cut")
+        f0 = os.path.join("src_cut", "Level_0", sorted(x for x in os.listdir(os.path.join("src_cut", "Level_0")) if x.startswith("Cell_D"))[0])
+        fabs, _ = corrupt.scan_file(f0)
+        os.truncate(f0, fabs[-1]["start"] if case["delay_seed"] % 2 else fabs[-1]["hend"] + 8)
     if e == "chk2plt":
         chkgen.write(chkgen.Checkpoint(dict(case["chk"], seed=case["chk"]["seed"] + variant)), "chk")
     if e.startswith("mand3d"):
